@@ -40,6 +40,7 @@ def shards(tier):
     out += [{'kind': 'frag', 'nf': nf, 'first': i} for nf in (1, 2, 3) for i in range(6)]
     out += [{'kind': 'frag', 'nf': nf, 'first': i, 'family': 'iso'} for nf in (2, 3) for i in range(6)]
     out += [{'kind': 'frag', 'nf': nf, 'first': i, 'family': 'mixed'} for nf in (2, 3) for i in range(6)]
+    out += [{'kind': 'frag', 'nf': nf, 'first': i, 'family': 'tie'} for nf in (2, 3) for i in range(6)]
     out.append({'kind': 'frag0'})
     return out
 
@@ -140,6 +141,14 @@ def check(case, ctx):
             peaks_all = [base[0] + 0.1, base[0] + 0.4, base[1] + 0.3, base[3] + 0.05, base[3] + 0.45, 5000.0]
             ints_all = [1.0, 2.0, 5.0, 2.0, 1.0, 5.0]
             tolerances = (('th', 0.3), ('th', 0.6), ('th', 1.2), ('ppm', 3000.0))
+        elif case.get('family') == 'tie':
+            # distinct fragments with exactly the same m/z: immonium ions of a repeated residue, and b1 next to them
+            frs_all = p.fragment('PEPEK', ['i'], [1]) + p.fragment('PEPEK', ['b'], [1])[-2:]
+            frs_all = sorted(frs_all, key=lambda f: (f.ion_type, f.start, f.end))[:6]
+            base = sorted(set(f.mz for f in frs_all))
+            peaks_all = [base[0], base[0] + 0.2, base[1], base[1] - 0.1, base[-1] + 0.05, 5000.0]
+            ints_all = [1.0, 2.0, 5.0, 2.0, 1.0, 3.0]
+            tolerances = (('th', 0.0), ('th', 0.25), ('ppm', 3000.0))
         elif case.get('family') == 'mixed':
             # singly and doubly charged ions of the same spans: ordering by m/z differs from ordering by mass
             frs_all = p.fragment('PEPK', ['b', 'y'], [1, 2])
@@ -237,7 +246,7 @@ def check(case, ctx):
                                     continue
                                 seen.add(f.label)
                                 lab = '+' * f.charge + f.ion_type
-                                arr = expcov.setdefault(lab, [0] * 4)
+                                arr = expcov.setdefault(lab, [0] * len(f.parent_sequence))
                                 for i in range(f.start, f.end):
                                     arr[i] += 1
                             if st != 'ok' or cov != expcov:
